@@ -45,7 +45,7 @@ def concretize(vals, dtype: str) -> np.ndarray:
         for v in vals:
             if v[1] != 1:
                 raise ValueError(f"non-integer {v} for dtype {dtype}")
-        return np.array([v[0] for v in vals], dtype=np.int64).astype(dt)
+        return np.array([v[0] for v in vals], dtype=np.int64).astype(dt)        # (+ case["int_offset"], see run_reduce_case)
     if dt.kind in "Mm":
         out = np.array([np.iinfo(np.int64).min if v[1] == 0 else v[0] for v in vals], dtype=np.int64)
         return out.view(dt)
@@ -164,6 +164,10 @@ def run_reduce_case(case: dict) -> dict:
     warnings.filterwarnings("ignore")
     kind = case.get("label_kind", "int")
     array = concretize(case["vals"], case.get("dtype", "f8"))
+    if case.get("int_offset"):
+        # an order- and tie-preserving translation to huge integers (beyond 2**53, where float64 no longer separates neighbours);
+        # the abstract record keeps the small values: position-valued results are unaffected, value-valued ones are translated back
+        array = array.astype(np.int64) + np.int64(case["int_offset"])
     by = label_array(case["codes"], kind)
     kw = build_kwargs(case)
     chunks = case.get("chunks")
@@ -186,6 +190,8 @@ def run_reduce_case(case: dict) -> dict:
         rec["out_dtype_seen"] = str(np.asarray(result).dtype)
         rec["groups"] = label_tokens(groups, kind)
         tol = case.get("tol") or 1e-9
+        if case.get("int_offset") and case["func"] not in ARG_FUNCS and case["func"] != "count":
+            result = np.asarray(result).astype(np.int64) - np.int64(case["int_offset"])
         rec["out"] = project_out(case["func"], result, tol)
         if case["func"] in STD_FUNCS:
             rec["raw"] = project_raw(result, tol)
